@@ -748,7 +748,7 @@ def plan(ctx):
     import molli as ml
     rng = ctx.rng
     jobs = []
-    n_rand = 6000 if ctx.thorough else 700
+    n_rand = 20000 if ctx.thorough else 700
     cd_keys = list(ml.CDXMLFile(ml.files.parser_demo_cdxml).keys())
     for _ in range(n_rand):
         kind = "mol" if rng.random() < 0.7 else "struct"
